@@ -158,6 +158,7 @@ func jksBytes(magic []byte, es []jksEntry) []byte {
 }
 
 func genC06(tier string, r *rng) {
+	genPem(tier, r.fork()) // tie of the concrete pem.Decode model (Model/Pem.lean) to the library and to file.PEMFile
 	keys := sshKeyLines()
 	comments := []string{"", " user@host", " a comment with spaces", " #notacomment", " ünï@cödé"}
 	opts := []string{"", "no-pty ", "command=\"echo hi\",no-port-forwarding ", "from=\"*.example.com,!bad.example.com\" "}
